@@ -1067,16 +1067,40 @@ def t4(prog, rep):
     # tested equal to the same sum, and no earlier test turns away a length the encoder can produce (header only, empty name)
     hdr = sum(b for a, b in nm(sseq) if isinstance(b, int))
     BL = ("v", des.params[1]["name"], des.params[1]["id"])
+
+    def linform(n, sign=1, acc=None):
+        """coefficients of the leaves of a +/- expression (constants under the key None)"""
+        acc = {} if acc is None else acc
+        if n[0] == "+" and len(n) == 3:
+            linform(n[1], sign, acc); linform(n[2], sign, acc)
+        elif n[0] == "-" and len(n) == 3:
+            linform(n[1], sign, acc); linform(n[2], -sign, acc)
+        elif n[0] == "cast":
+            linform(n[-1], sign, acc)
+        elif n[0] == "c" and isinstance(n[1], int):
+            acc[None] = acc.get(None, 0) + sign * n[1]
+        else:
+            k = n[2] if n[0] == "." else n
+            acc[k] = acc.get(k, 0) + sign
+        return acc
+
+    def exact_total(L, R):
+        """L == R says buflen == hdr + namelen, however the terms are distributed over the two sides"""
+        d = linform(L)
+        for k, v in linform(R).items():
+            d[k] = d.get(k, 0) - v
+        d = {k: v for k, v in d.items() if v}
+        return d in ({BL: 1, "namelen": -1, None: -hdr}, {BL: -1, "namelen": 1, None: hdr})
     okret = [r for r in des.returns() if r.kids and norm(r.kid(0)) != ("c", 0)]
     exact, low = False, []
     for r in okret:
         for cond, truth in des.edge_conds(r):
             for op, L, R, _, _ in cond_atoms(cond, truth):
-                if L == BL and op == "==" and lin_terms(R) == (hdr, ["namelen"]):
+                if op == "==" and exact_total(L, R):
                     exact = True
                 if L == BL and op in (">=", ">") and R[0] == "c":
                     low.append(R[1] + (1 if op == ">" else 0))
-                if L == BL and op == "==" and lin_terms(R) != (hdr, ["namelen"]):
+                if L == BL and op == "==" and not exact_total(L, R):
                     low.append(1 << 62)
     rep.check(exact and bool(okret) and all(c <= hdr for c in low), "T4-sockaddr", "deserialize accepts exactly the length serialize produces", des.loc,
               "serialize writes %d + namelen bytes; deserialize's success path requires: exact-length test with that sum: %s, minimum lengths: %s"
